@@ -526,7 +526,7 @@ class Configuration(_Configuration):
         # back to what was in force before the reload was attempted: the neighbors and the
         # processes of the running configuration, not what the parser had read so far
         self.neighbors = self._previous_neighbors
-        self.processes = getattr(self, '_previous_processes', None) or self.process.processes
+        self.processes = getattr(self, '_previous_processes', {})
         self._neighbors = {}
         self._previous_neighbors = {}
 
